@@ -381,6 +381,10 @@ def run(cx):
     resync_walk(cx, "C01.o")
     from props.C04 import inst_fragment_flags
     inst_fragment_flags(cx, "C01.p")
+    # a resynchronisation offered while the resend queue still holds fragments of earlier packets lets the receiver
+    # pass packets whose fragments then arrive late: they fall outside the window or into a re-used slot
+    from props.C02 import inst_resync_guard
+    inst_resync_guard(cx, "C01.q")
 
 
 SELFTEST = [
